@@ -172,6 +172,14 @@ class EventletWorker(AsyncWorker):
             eventlet.sleep(1.0)
 
         self.notify()
+
+        # keep the heartbeat going while the requests in flight drain
+        def _beat():
+            while True:
+                eventlet.sleep(1.0)
+                self.notify()
+        beat = eventlet.spawn(_beat)
+
         t = None
         try:
             with eventlet.Timeout(self.cfg.graceful_timeout) as t:
@@ -184,3 +192,5 @@ class EventletWorker(AsyncWorker):
                 raise
             for a in acceptors:
                 a.kill()
+        finally:
+            beat.kill()
